@@ -260,6 +260,11 @@ func (this *Hnsw) Search(ctx context.Context, query math.Vector, k uint) (Search
 		entrypoint, minDistance = this.greedyClosestNeighbor(query, entrypoint, minDistance, l)
 	}
 
+	// No more than Len() items can be returned: a larger k must not size the
+	// beam (and the visited set allocated from it).
+	if n := this.Len(); k > uint(n) {
+		k = uint(n)
+	}
 	ef := math.MaxInt(this.config.ef, int(k))
 	neighbors := this.searchLevel(query, entrypoint, ef, 0)
 
